@@ -98,8 +98,13 @@ type verifTap struct {
 func (t *verifTap) Write(p []byte) (int, error) {
 	t.mu.Lock()
 	defer t.mu.Unlock()
-	t.accepted = append(t.accepted, string(p))
-	return t.l.Write(p)
+	// accepted = Write returned (len, nil); the bytes are remembered as they were when handed over
+	line := string(p)
+	n, err := t.l.Write(p)
+	if err == nil && n == len(p) {
+		t.accepted = append(t.accepted, line)
+	}
+	return n, err
 }
 
 func (t *verifTap) Close() error { return nil }
@@ -857,6 +862,8 @@ func verifRunCase(c verifCase) any {
 		<-done
 		return err
 	}
+	aborted := false
+events:
 	for _, e := range c.Events {
 		if e.D != nil {
 			deferred = append(deferred, *e.D)
@@ -906,8 +913,10 @@ func verifRunCase(c verifCase) any {
 						continue
 					}
 					st := w.scriptNow
-					if len(stamps) > 0 {
-						st = stamps[0]
+					if early < len(stamps) {
+						st = stamps[early]
+					} else if len(stamps) > 0 {
+						st = stamps[len(stamps)-1]
 					}
 					if !pass(st) {
 						return false
@@ -978,13 +987,16 @@ func verifRunCase(c verifCase) any {
 		}
 		for i := 0; i < expected; i++ {
 			stamp := w.scriptNow
-			if i < len(stamps) {
-				stamp = stamps[i]
+			if early+i < len(stamps) {
+				stamp = stamps[early+i]
 			} else if len(stamps) > 0 {
 				stamp = stamps[len(stamps)-1]
 			}
 			if !pass(stamp) {
-				return fail("worker did not take the record")
+				// accepted records never reached the worker: stop here and report what is on disk
+				aborted = true
+				errs = append(errs, "accepted-records-not-delivered")
+				break events
 			}
 		}
 	}
@@ -1005,6 +1017,9 @@ func verifRunCase(c verifCase) any {
 		errs = append(errs, fmt.Sprintf("extra-shallrotate=%d", extra))
 	}
 	res := map[string]any{"log": logs, "final": final, "rotations": rotations, "errs": errs}
+	if aborted {
+		res["aborted"] = true
+	}
 	if c.Front != nil {
 		res["accepted"] = accepted
 	}
